@@ -50,6 +50,13 @@ def _fin_cb(env):
     return cb
 
 
+@core.fn('c05_fin_stats_cb')
+def _fin_stats_cb(env):
+    def cb(stats):
+        env.log.append(['finstats', dict(stats)])
+    return cb
+
+
 @core.fn('c05_hdr')
 def _hdr(env):
     def f(x, kwargs=None):
@@ -101,6 +108,10 @@ OBSERVERS = {
     'finalizer': {'op': 'flow', 'steps': [S('finalizer', {'$fn': 'c05_fin_cb', 'env': True}), {'op': 'c05_tracer'}],
                   'positions': [50, 50]},
     'update_stats': S('update_stats', {'k': 1}),
+    # a dumper followed by a finalizer whose callback takes the stats collected so far
+    'dump+finalizer_stats': {'op': 'flow', 'steps': [S('dump_to_path', {'$path': 'dumpfs'}), S('update_stats', {'marker': 7}),
+                                                      S('finalizer', {'$fn': 'c05_fin_stats_cb', 'env': True})],
+                             'positions': [50, 50, 50]},
     'validate': S('validate'),
 }
 OBS_POS = 50
@@ -266,6 +277,7 @@ def decode_for(obs):
         'dump_to_zip': d_zip, 'stream': d_stream,
         'checkpoint': lambda e, o: d_stream(e, o, 'checkpoints/cp%d/stream.ndjson' % OBS_POS),
         'finalizer': d_fin, 'update_stats': lambda e, o: ('stats', o.get('stats')), 'validate': lambda e, o: None,
+        'dump+finalizer_stats': lambda e, o: ('finstats', [x[1] for x in o['log'] if x[0] == 'finstats']),
     }[obs]
 
 
@@ -337,6 +349,14 @@ def check_case(case):
             viol.append(('finalizer-count', '%s: callback fired %d times' % (label, len(fins))))
         elif fins[0] < last_row:
             viol.append(('finalizer-early', '%s: callback fired before the last row had passed' % label))
+    if obs == 'dump+finalizer_stats':
+        calls = cap[1]
+        total = sum(len(r) for r in P.rows)
+        if len(calls) != 1:
+            viol.append(('finalizer-count', '%s: stats callback fired %d times' % (label, len(calls))))
+        elif calls[0].get('marker') != 7 or (calls[0].get('count_of_rows') or 0) != total:
+            viol.append(('finalizer-stats', '%s: the callback received stats %r; the stream at its position has %d rows and '
+                         'update_stats(marker=7) precedes it' % (label, calls[0], total)))
     if obs == 'update_stats':
         if (cap[1] or {}).get('k') != 1:
             viol.append(('stats', '%s: stats %r lack the update' % (label, cap[1])))
